@@ -10,6 +10,44 @@ NOTE = ("Trusted: Coq 8.16.1 kernel + vm_compute; no axioms (Print Assumptions c
         "its ExtrOcamlBasic extraction vs the implementation built from the working tree); Rust harness, python generators.")
 
 CHECKS = {
+    "C09": dict(
+        category="other",
+        text="Machine-checked (Props/C09.v) over the model of formatting.rs (Model/Format.v): the handler's single edit covers "
+             "exactly the whole document (C09_whole_edit, C09_whole_document_covers); every pair of token classes the printers "
+             "glue without a separator lexes back to the same two tokens (C09_glue_table: a vm_compute sweep over the finite "
+             "table, lifted by C09_glue_lift), and re-printed literals keep their value (C09_int/hex/char_roundtrip). The "
+             "structural half (the printers emit exactly the non-comment tokens of each construct: C09_full_statement) needs "
+             "the parser round trip and is stated, not proved. It is decided per input by the check: model = real formatter on "
+             "generated programs x layouts x options (extracted judge + coqc VM sample), and an implementation oracle re-lexes "
+             "the formatted text with the real lexer (same non-comment kinds and literal values), re-opens it (same "
+             "diagnostics up to layout) and checks the edit range.",
+        design_ref="DESIGN.md section 5, C09",
+        technique="Coq proof of the separator table and literal round trips over a Gallina model of the formatter + correspondence and re-lex/re-analyse oracle through the binary"),
+    "C10": dict(
+        category="other",
+        text="The property does NOT hold for the code as it is: the faithful model refutes it (Props/C10.v C10_refuted, witness "
+             "`proc main() {<LF>// c<LF>}`), and the losses are structural (comments skipped by tag parsers in front of closing "
+             "tokens, inside headers and expressions, before EOF are never re-attached) - recorded as 22 known findings "
+             "C10-gap-<kind>, one per losing gap kind, not repaired. Machine-checked for the model: the two comment helpers "
+             "emit every comment of their slice exactly once and in order (C10_all_comments_once, C10_leading_comments_once/"
+             "_prefix, C10_leaf_statement_comments). The check puts one comment into EVERY token gap of generated programs in "
+             "turn (exhaustive per program) plus multi-comment layouts: a comment lost in a gap kind that is not listed, or any "
+             "duplicated / reordered comment, is a violation; listed kinds print KNOWN-FINDING while their witnesses still fail.",
+        design_ref="DESIGN.md section 5, C10",
+        technique="Coq refutation witness + proofs about the comment helpers over a Gallina model of the formatter + exhaustive per-program gap campaign discriminating known gap kinds"),
+    "C11": dict(
+        category="other",
+        text="Machine-checked (Props/C11.v, 12 theorems) over the models of the formatter and the parser, for ALL documents: "
+             "the handler answers null exactly when the formatted text equals the document (C11_null_iff, C11_whole_edit); "
+             "the output is canonical - two token vectors with the same kinds (any whitespace, any byte ranges) format to the "
+             "same text (C11_canonical, via C11_parser_reads_kinds_only and C11_printer_reads_kinds_only); indentation honours "
+             "the options: every line produced for a member of a block / branch / loop body / procedure body starts with one "
+             "more unit (tabSize spaces or one tab) than its parent, by induction over nesting (C11_indent_lines, "
+             "C11_block_lines, C11_nested_lines, C11_proc_*). Idempotence (C11_idempotent_full_statement) needs the re-parse of "
+             "the output and is stated, not proved; the check decides it per input: format, apply with an independent edit "
+             "model, format again => null, for all 10 option settings, plus two-layout canonicity and exact depth x unit per line.",
+        design_ref="DESIGN.md section 5, C11",
+        technique="Coq proof (relational kinds-only argument over parser and printers; induction over nesting for indentation) + correspondence and format-twice oracle through the binary"),
     "C02": dict(
         category="other",
         text="Machine-checked for ALL Unicode texts (Props/C02.v): every panic site of lexer::lex and parser::parse is "
